@@ -7,9 +7,10 @@ SPEC = {
         {"name": "history", "pkg": O4, "kind": "rapid", "run": "^TestVerifC18History$",
          "quick": {"checks": 600, "shards": 1, "timeout": 300},
          "thorough": {"checks": 400, "shards": 16, "timeout": 900}},
-        {"name": "crash-start", "pkg": O4, "kind": "rapid", "run": "^TestVerifC18CrashStart$",
-         "quick": {"checks": 4, "shards": 1, "timeout": 300, "shrinktime": "10s"},
-         "thorough": {"checks": 4, "shards": 6, "timeout": 900, "shrinktime": "30s"}},
+        # six test functions (one per start kind), each one rapid.Check: checks = traced starts per kind and shard
+        {"name": "crash-start", "pkg": O4, "kind": "rapid", "run": "^TestVerifC18CrashStart",
+         "quick": {"checks": 3, "ntests": 6, "shards": 1, "timeout": 300, "shrinktime": "10s"},
+         "thorough": {"checks": 8, "ntests": 6, "shards": 6, "timeout": 900, "shrinktime": "30s"}},
         {"name": "crash-tickets", "pkg": SS, "kind": "rapid", "run": "^TestVerifC18CrashTickets$",
          "quick": {"checks": 8, "shards": 1, "timeout": 300, "shrinktime": "10s"},
          "thorough": {"checks": 6, "shards": 6, "timeout": 900, "shrinktime": "30s"}},
